@@ -289,6 +289,120 @@ pub fn psig(seed: u64, thorough: bool) -> Vec<Value> {
     out
 }
 
+
+// ====================================================================== Pedersen (C09)
+
+trait Grp: Group<Scalar = Scalar> + zkchannels_crypto::SerializeElement + Copy {
+    const NAME: &'static str;
+}
+impl Grp for G1Projective { const NAME: &'static str = "G1"; }
+impl Grp for G2Projective { const NAME: &'static str = "G2"; }
+
+fn pedersen_n<G: Grp, const N: usize>(rng: &mut StdRng, thorough: bool, out: &mut Vec<Value>) {
+    let classes = ["zero", "one", "minus_one", "random"];
+    // parameter sets: generated by the library (read back through the wire tree) and supplied explicitly,
+    // including generators with a known relation (g_1 = h)
+    let mut gens: Vec<(&str, G, Vec<G>)> = vec![];
+    {
+        let p = PedersenParameters::<G, N>::new(rng);
+        let t = Tree::of(&p);
+        let rd = |path: &str| -> G {
+            let b = t.bytes_at(path).unwrap();
+            let w = bincode::serialize(&Wrap::<G>(G::identity())).unwrap();
+            assert_eq!(w.len(), b.len());
+            bincode::deserialize::<Wrap<G>>(b).unwrap().0
+        };
+        gens.push(("generated", rd("h"), (0..N).map(|i| rd(&format!("gs.{}", i))).collect()));
+    }
+    let h = G::random(&mut *rng);
+    let mut gs: Vec<G> = (0..N).map(|_| G::random(&mut *rng)).collect();
+    gens.push(("explicit", h, gs.clone()));
+    gs[0] = h;
+    gens.push(("explicit, g_1 = h", h, gs.clone()));
+    for (pname, h, gs) in gens {
+        let mut arr = [G::identity(); N];
+        arr.copy_from_slice(&gs);
+        let params = if pname == "generated" { None } else { Some(PedersenParameters::<G, N>::from_generators(h, arr)) };
+        let params = params.unwrap_or_else(|| PedersenParameters::<G, N>::from_generators(h, arr));
+        let mut cases: Vec<(Vec<&str>, &str)> = vec![];
+        for mc in classes { for rc in classes { cases.push((vec![mc; N], rc)); } }
+        if N >= 2 {
+            let mut a = vec!["random"; N]; a[0] = "zero"; cases.push((a.clone(), "random")); cases.push((a, "zero"));
+            let mut b = vec!["zero"; N]; b[N - 1] = "one"; cases.push((b.clone(), "minus_one")); cases.push((b, "one"));
+        }
+        if pname == "explicit, g_1 = h" {
+            // m = (1, 0, ..), r = q-1: the commitment is the identity element
+            let mut a = vec!["zero"; N]; a[0] = "one"; cases.push((a, "minus_one"));
+        }
+        for (ci, (mc, rc)) in cases.iter().enumerate() {
+            if !thorough && N > 3 && ci % 3 != 0 { continue; }
+            let mut mv = [Scalar::zero(); N];
+            for i in 0..N { mv[i] = class_scalar(mc[i], rng); }
+            let r = class_scalar(rc, rng);
+            let msg = Message::<N>::new(mv);
+            let com = msg.commit(&params, bf_of(&r));
+            let mut acc = h * r;
+            for i in 0..N { acc += gs[i] * mv[i]; }
+            let elem_eq = com.to_element() == acc;
+            let verify_orig = com.verify_opening(&params, bf_of(&r), &msg);
+            let mut pert = vec![];
+            for i in 0..N {
+                for d in [Scalar::one(), -Scalar::one()] {
+                    let mut m2 = mv; m2[i] += d;
+                    let mut acc2 = h * r;
+                    for k in 0..N { acc2 += gs[k] * m2[k]; }
+                    pert.push(json!({"kind": "coord", "idx": i, "verdict": com.verify_opening(&params, bf_of(&r), &Message::<N>::new(m2)), "recomputed_eq": acc2 == acc}));
+                }
+            }
+            for d in [Scalar::one(), -Scalar::one(), -r, Scalar::one() - r] {
+                if d == Scalar::zero() { continue; }
+                let r2 = r + d;
+                let mut acc2 = h * r2;
+                for k in 0..N { acc2 += gs[k] * mv[k]; }
+                pert.push(json!({"kind": "bf", "verdict": com.verify_opening(&params, bf_of(&r2), &msg), "recomputed_eq": acc2 == acc}));
+            }
+            // homomorphism with a second opening
+            let mut m2 = [Scalar::zero(); N];
+            for i in 0..N { m2[i] = class_scalar(mc[(i + 1) % N], rng); }
+            let r2 = class_scalar(if ci % 2 == 0 { "random" } else { "one" }, rng);
+            let com2 = Message::<N>::new(m2).commit(&params, bf_of(&r2));
+            let mut ms = [Scalar::zero(); N];
+            for i in 0..N { ms[i] = mv[i] + m2[i]; }
+            let coms = Message::<N>::new(ms).commit(&params, bf_of(&(r + r2)));
+            let additive = com.to_element() + com2.to_element() == coms.to_element();
+            // a commitment to something else does not open
+            let other = Message::<N>::new(m2).commit(&params, bf_of(&r2));
+            let other_differs = other.to_element() != com.to_element();
+            let other_verdict = other.verify_opening(&params, bf_of(&r), &msg);
+            out.push(json!({"ev": "pedersen", "group": G::NAME, "N": N, "params": pname, "m": mc, "r": rc, "elem_eq_independent": elem_eq,
+                            "verify_original": verify_orig, "commitment_is_identity": bool::from(acc.is_identity()), "perturbed": pert, "additive": additive,
+                            "other": {"differs": other_differs, "verdict": other_verdict}}));
+        }
+    }
+}
+
+#[derive(serde::Serialize, serde::Deserialize)]
+#[serde(bound = "G: zkchannels_crypto::SerializeElement")]
+struct Wrap<G: zkchannels_crypto::SerializeElement>(#[serde(with = "zkchannels_crypto::SerializeElement")] G);
+
+pub fn pedersen(seed: u64, thorough: bool) -> Vec<Value> {
+    macro_rules! spawn_n {
+        ($n:literal) => {
+            std::thread::spawn(move || {
+                let mut rng = seeded(seed, 620 + $n);
+                let mut out = vec![];
+                pedersen_n::<G1Projective, $n>(&mut rng, thorough, &mut out);
+                pedersen_n::<G2Projective, $n>(&mut rng, thorough, &mut out);
+                out
+            })
+        };
+    }
+    let hs = vec![spawn_n!(1), spawn_n!(2), spawn_n!(3), spawn_n!(5), spawn_n!(8), spawn_n!(13)];
+    let mut out = vec![];
+    for h in hs { out.extend(h.join().expect("pedersen worker")); }
+    out
+}
+
 #[allow(dead_code)]
 fn _keep(_: &Sp, _: &G2Affine, _: &G2Projective, _: &PedersenParameters<G1Projective, 1>, _: &PublicKey<1>, _: &CommitmentProofBuilder<G1Projective, 1>,
          _: &RangeConstraintBuilder, _: &RangeConstraintParameters, _: &SignatureProofBuilder<1>) {
